@@ -823,6 +823,10 @@ func RunHistReuse(r *Run) {
 					walkerFail(r, "clone", what, err)
 					return
 				}
+				if dstObj.pj != nil && out != dstObj.pj {
+					r.violate("clone", "destination-ignored", fmt.Sprintf("%s: Clone(dst) returned another object than the destination it was given; history: %v", what, trace))
+					return
+				}
 				reused++
 				*dstObj = simObj{pj: out, model: cloneRoots(src.model), nd: src.nd, copy: true, origin: what + " clone"}
 				trace = append(trace, "clone into reused dst")
@@ -1045,6 +1049,11 @@ func RunHistAlias(r *Run) {
 			var out *simdjson.ParsedJson
 			if err := safely(func() error { out = src.pj.Clone(dst); return nil }); err != nil {
 				walkerFail(r, "clone", what, err)
+				break
+			}
+			if dst != nil && out != dst {
+				// "If a nil destination is sent a new will be created": a destination that was given is the clone
+				r.violate("clone", "destination-ignored", fmt.Sprintf("%s: Clone(dst) returned another object than the destination it was given (dst from '%s')", what, dstObj.origin))
 				break
 			}
 			no := &simObj{pj: out, model: cloneRoots(src.model), nd: src.nd, copy: true, origin: what + " clone"}
